@@ -22,6 +22,13 @@ var props = map[string][]family{
 	"C16": {famServeWant("c16")},
 	"C04": {famConfig},
 	"C05": {famConfig},
+	"C10": {famPair},
+	"C02": {famIntent},
+	"C08": {famHistWant("c08")},
+	"C09": {famHistWant("c09")},
+	"C06": {famRoundtrip},
+	"C13": {famPattern},
+	"C15": {famTwins},
 }
 
 func main() {
